@@ -194,8 +194,19 @@ func (cfg *Config) PutCredential(serverAddress string, cred auth.Credential) err
 	if err != nil {
 		return fmt.Errorf("failed to marshal auth field: %w", err)
 	}
+	oldAuthCfgBytes, existed := cfg.authsCache[serverAddress]
 	cfg.authsCache[serverAddress] = authCfgBytes
-	return cfg.saveFile()
+	if err := cfg.saveFile(); err != nil {
+		// the file still holds the old state: do not keep the refused update
+		// in memory, where an unrelated later save would write it
+		if existed {
+			cfg.authsCache[serverAddress] = oldAuthCfgBytes
+		} else {
+			delete(cfg.authsCache, serverAddress)
+		}
+		return err
+	}
+	return nil
 }
 
 // DeleteAuthConfig deletes the corresponding credential for serverAddress.
@@ -207,8 +218,14 @@ func (cfg *Config) DeleteCredential(serverAddress string) error {
 		// no ops
 		return nil
 	}
+	oldAuthCfgBytes := cfg.authsCache[serverAddress]
 	delete(cfg.authsCache, serverAddress)
-	return cfg.saveFile()
+	if err := cfg.saveFile(); err != nil {
+		// the file still holds the entry: keep it in memory as well
+		cfg.authsCache[serverAddress] = oldAuthCfgBytes
+		return err
+	}
+	return nil
 }
 
 // GetCredentialHelper returns the credential helpers for serverAddress.
